@@ -143,6 +143,10 @@ pub struct RtWorld {
     /// a session that issues more requests than this is a runaway (it is parked and reported)
     pub max_requests: u64,
     pub request_budget_exceeded: bool,
+    /// chunks whose upload was lost for good (never listed, never served). Only chunks below the
+    /// start position are ever lost, so the series the poller has to deliver is unaffected; what
+    /// they create is a *hole* in the listing the start-up sees.
+    pub lost: std::collections::BTreeSet<(i64, usize)>,
 }
 
 pub fn dir_of(v0: usize, g: i64) -> usize {
@@ -652,6 +656,9 @@ impl Backend for RtWorld {
                     if let Some(g) = self.owner_of(d) {
                         let gen = &self.gens[&g];
                         for i in 0..gen.stamps.len() {
+                            if self.lost.contains(&(g, i + 1)) {
+                                continue;
+                            }
                             let key = format!("{}/{}/{}", self.site, d, chunk_file_name(&gen.prefix, i + 1));
                             if !key.starts_with(prefix.as_str()) {
                                 continue;
@@ -709,7 +716,7 @@ impl Backend for RtWorld {
                         if let Some(g) = self.owner_of(d) {
                             let gen = &self.gens[&g];
                             for i in 0..gen.stamps.len() {
-                                if parts[2] == chunk_file_name(&gen.prefix, i + 1) {
+                                if parts[2] == chunk_file_name(&gen.prefix, i + 1) && !self.lost.contains(&(g, i + 1)) {
                                     found = Some((g, i + 1));
                                     break;
                                 }
